@@ -55,7 +55,7 @@ CHECKS = {
         technique=SIM + "; fault enumeration of all structural entry points under generated lock shapes; hidden-state digest before/after",
         ref="DESIGN.md section 5, C09"),
     "C10": dict(
-        text="Legal generated histories with injected illegal calls (35% of operations) of every class the documentation declares illegal (15 classes through ~40 call sites, plus out-of-range query calls, cache/resource/registry misuse); each must panic, and for single-entity operations the world must afterwards equal the unchanged model in every observable, including - through the hook - the entity pool that determines future handles; the history continues and keeps matching the model.",
+        text="Legal generated histories with injected illegal calls (35% of operations) of every class the documentation declares illegal (15 classes through ~40 call sites, plus out-of-range query calls, cache/resource/registry misuse); each must panic, and for single-entity operations the world must afterwards equal the unchanged model in every observable, including - through the hook - the entity pool that determines future handles; the history continues and keeps matching the model. Generic part (TestC10Generic): 15 classes of illegal calls through package generic must panic like their documented ID-based equivalents and change nothing.",
         note="Illegal batch calls are only required to panic (the statement restricts 'changes nothing' to single-entity operations, DESIGN 4.8). Hidden bookkeeping (empty tables, graph nodes) may change on a rejected call (DESIGN 4.9).",
         technique=SIM + " with fault injection of every documented illegal-argument class",
         ref="DESIGN.md section 5, C10"),
